@@ -50,7 +50,7 @@ type ccResult struct {
 	Stuck   string     `json:"stuck,omitempty"`
 }
 
-var ccKinds = []string{"hover", "completion", "references", "definition", "documentSymbol", "semanticTokensFull", "foldingRange", "inlineCompletion"}
+var ccKinds = []string{"hover", "completion", "references", "definition", "documentSymbol", "semanticTokensFull", "foldingRange", "inlineCompletion", "formatting"}
 
 func ccText(u string, v int) string {
 	acct := "assets:bank"
@@ -395,6 +395,8 @@ type strCase struct {
 	// itself. In a quiet run nothing is traced, publications are dropped without a lock, and the only thing a job does
 	// for the harness is WaitGroup.Done at its end (which orders it before the final Wait and before nothing else).
 	Quiet bool `json:"quiet"`
+	// Heavy: number of account directives in one more included file (0 = none)
+	Heavy int `json:"heavy"`
 	// Serial: no jitter, and every background job is awaited before the next message: the history is replayed as a
 	// sequence, only the final state comparison is of interest (Lifecycle.tla).
 	Serial bool `json:"serial"`
@@ -436,6 +438,17 @@ func runStress(c strCase, dir string) (any, error) {
 		// the first transaction is off by exactly v: a publication tells which version it was computed from
 		// every version DECLARES its own account as well: what counts as declared depends on the version of every file
 		t := ccText(u, v) + fmt.Sprintf("\n2024-04-01 marker\n    equity:marker  %d XVER\n    equity:zero  0 XVER\n\naccount assets:v%d\n", v, v)
+		// how the OTHER documents are formatted depends on the root's version: the root declares the display format of a
+		// commodity the included documents post in (a formatting request on them reads the workspace's format table)
+		if u == "u1" {
+			if v%2 == 0 {
+				t += "commodity 1,000.00 FMT\n"
+			} else {
+				t += "commodity 1.000,00 FMT\n"
+			}
+		} else {
+			t += "\n2024-05-01 fmt\n    assets:fmt  1234.5 FMT\n    equity:fmt  -1234.5 FMT\n"
+		}
 		if u == "u1" {
 			// the include directives of the root as the editor holds them (Lifecycle.tla: inc); "link" / "unlink" edit them
 			pre := ""
@@ -444,11 +457,22 @@ func runStress(c strCase, dir string) (any, error) {
 					pre += "include " + names[w] + "\n"
 				}
 			}
+			if c.Heavy > 0 {
+				pre += "include heavy.journal\n"
+			}
 			t = pre + t
 		}
 		return t
 	}
 	disk := map[string]string{}
+	if c.Heavy > 0 {
+		// a member whose scan takes long: widens every window in which the workspace derives something from all directives
+		var b strings.Builder
+		for i := 0; i < c.Heavy; i++ {
+			fmt.Fprintf(&b, "account heavy:a%d\n", i)
+		}
+		disk["heavy.journal"] = b.String()
+	}
 	for u, n := range names {
 		disk[n] = text(u, 1)
 	}
@@ -677,6 +701,9 @@ func runStress(c strCase, dir string) (any, error) {
 	lineOf := func(u string) uint32 {
 		if u == "u1" {
 			n := uint32(1)
+			if c.Heavy > 0 {
+				n++
+			}
 			for _, on := range edInc {
 				if on {
 					n++
